@@ -32,6 +32,40 @@ def _has_quant(t) -> bool:
     return False
 
 
+def _pure_arith(t) -> bool:
+    """no quantifier, no array-sorted subterm, no uninterpreted function application (constants and datatype
+    accessors are fine): the part of a path condition that plain (non)linear arithmetic can use"""
+    stack, seen = [t], set()
+    while stack:
+        x = stack.pop()
+        if x.get_id() in seen:
+            continue
+        seen.add(x.get_id())
+        if z3.is_quantifier(x) or z3.is_array(x):
+            return False
+        if z3.is_app(x) and x.num_args() > 0 and x.decl().kind() == z3.Z3_OP_UNINTERPRETED:
+            return False
+        stack.extend(x.children())
+    return True
+
+
+def _solve_arith_cone(ob: Oblig, timeout_ms: int):
+    """sound weakening for nonlinear hints: drop every assumption that is not pure arithmetic; `unsat` of the smaller
+    query is `unsat` of the full one (anything else is ignored)"""
+    try:
+        if not _pure_arith(ob.goal):
+            return None
+        s = z3.Solver()
+        s.set("timeout", timeout_ms)
+        for a in ob.assumptions:
+            if _pure_arith(a):
+                s.add(a)
+        s.add(z3.Not(ob.goal))
+        return s.check() == z3.unsat
+    except Exception:  # pragma: no cover
+        return None
+
+
 def to_smt2_qf(ob: Oblig) -> str:
     """cover fallback: the quantifier-free part of the assumptions (necessary condition for reachability)"""
     s = z3.Solver()
@@ -101,6 +135,9 @@ def _solve_one(idx) -> Dict[str, Any]:
     if ob.expect_sat:
         return _solve_cover(idx, ob, t0)
     out: Dict[str, Any] = {"idx": idx, "verdict": "unknown", "solver": None, "time": 0.0, "model": None, "reason": ""}
+    if ob.kind == "hint" and _solve_arith_cone(ob, 5000):
+        out.update(verdict="unsat", solver=f"z3 {z3.get_version_string()} (arithmetic cone)", time=time.time() - t0)
+        return out
     if getattr(ob, "hint", None) == "cvc5":
         # this obligation class was discharged by cvc5 when the ledger was recorded: ask cvc5 first
         r = _external(ob, only="cvc5")
